@@ -118,6 +118,8 @@ def check_sensors(w, rep):
             good = bool(seen) and isinstance(seen[-1].get("arg"), Instance) and isinstance(fsim, cm.FunctionVal) and mat_equal(w.sl(fsim.outs[0], 0, 3), w.param(seen[-1]["arg"]))
             rep.check("C12.sensors", "truth propagation: the propagated MRP is passed through shadow_if_necessary and written back", good,
                       "the simulated MRP is not shadow-switched after the integration step", where=W("simulate"))
+        if "simulate" in fs:
+            check_rk4_callables(w, rep, "C12.sensors", "sim.simulate", lambda: w.callf(sim["simulate"]), W("simulate"))
         if "get_state" in fs:
             f = fs["get_state"]
             I = dict(zip(f.in_names, f.ins))
